@@ -1,6 +1,8 @@
 #!/usr/bin/env python3
 """validate MANIFEST.json and evidence/*.json against the schemas (run with python3-vt which has jsonschema)"""
 import json, sys, glob, jsonschema
+import ast, os
+ast.parse(open(os.path.join(os.path.dirname(os.path.abspath(__file__)), "props.py")).read())   # tools/props.py must at least parse (the check imports it)
 ok = True
 m = json.load(open('/verif/MANIFEST.json'))
 try:
